@@ -308,7 +308,7 @@ def nshards(tier):
 
 def shard(tier, seed, idx) -> ShardResult:
     res = ShardResult()
-    comp.run(PROP, st_case(), check_case, lambda f: "all_event_types" in f, res, cases=60 if tier == "quick" else 1500, seed=seed * 1000 + idx,
+    comp.run(PROP, st_case(), check_case, lambda f: "all_event_types" in f, res, cases=60 if tier == "quick" else 800, seed=seed * 1000 + idx,
              kind="component", sample_fn=lambda c: {"world": world_summary(c["world"]), "nsteps": c["nsteps"], "window": c["window"], "det": c["det"]})
     return res
 
